@@ -132,3 +132,11 @@ func Select(hasDefault bool, cases ...Case) int {
 	}
 	return i
 }
+
+// SelectFellThrough is the panic value of the generated default clause of a
+// rewritten select (reachable only while a thread is being torn down).
+const SelectFellThrough = "mcrt: select fell through"
+
+// Method forms used by generated code (the value converts to T implicitly, as in a send statement).
+func (c *Chan[T]) SendCase(v T) *SCase[T] { return &SCase[T]{c: c, v: v} }
+func (c *Chan[T]) RecvCase() *RCase[T]    { return &RCase[T]{c: c} }
